@@ -1173,6 +1173,14 @@ def concretize_values(a):
     return np.array(flat).reshape(np.shape(a))
 
 
+def _maybe_nonfinite(v):
+    if isinstance(v, (builtins.float, np.floating)):
+        return math.isnan(v) or math.isinf(v)
+    if isinstance(v, SFP):
+        return True
+    return isinstance(v, core.SReal) and v.nan is not False
+
+
 def sym_matmul(a, b):
     a = np.asarray(_plain(a), dtype=object) if not isinstance(a, np.ndarray) else _plain(a)
     b = np.asarray(_plain(b), dtype=object) if not isinstance(b, np.ndarray) else _plain(b)
@@ -1190,8 +1198,8 @@ def sym_matmul(a, b):
             acc = 0
             for k in range(A.shape[1]):
                 x, y = A[i, k], B[k, j]
-                if _conc(x) and x == 0 or _conc(y) and y == 0:
-                    continue
+                if (_conc(x) and x == 0 and not _maybe_nonfinite(y)) or (_conc(y) and y == 0 and not _maybe_nonfinite(x)):
+                    continue            # 0 * finite; 0 * NaN / 0 * inf is NaN and must stay in the sum
                 acc = acc + _num(x) * _num(y)
             out[i, j] = acc
     if a1 and b1:
